@@ -45,6 +45,7 @@ class Result:
         self.failures = []            # kept (capped per tag set)
         self.failure_counts = {}      # tags -> count
         self.samples = []
+        self._auto = []
         self.monitors = {}
         self.bound = ""; self.rule = ""; self.exhaustive = False
         self.notes = []
@@ -56,12 +57,20 @@ class Result:
         self.evaluations += 1
         if nontrivial:
             self._distinct.add(hashlib.md5(repr(key).encode()).hexdigest())
+            self._auto_sample(key)
         yield
+
+    def _auto_sample(self, key):
+        # a few of the cases actually explored, written out (used when the driver does not call sample() itself)
+        if len(self._auto) < 4:
+            r = repr(key)
+            self._auto.append(r if len(r) < 600 else r[:600] + "...")
 
     def count(self, key, nontrivial=True):
         self.evaluations += 1
         if nontrivial:
             self._distinct.add(hashlib.md5(repr(key).encode()).hexdigest())
+            self._auto_sample(key)
 
     def expired(self):
         return time.time() - self.t0 > self.budget_s
@@ -89,7 +98,7 @@ class Result:
             "property": self.prop, "tier": self.tier, "seed": self.seed,
             "bound": self.bound, "rule": self.rule, "exhaustive": self.exhaustive,
             "evaluations": self.evaluations, "distinct_nontrivial": len(self._distinct),
-            "samples": self.samples, "monitors": self.monitors, "notes": self.notes,
+            "samples": self.samples or self._auto, "monitors": self.monitors, "notes": self.notes,
             "failures": self.failures,
             "failure_counts": [{"tags": list(k), "count": v} for k, v in sorted(self.failure_counts.items())],
             "wall_s": round(time.time() - self.t0, 2),
